@@ -291,20 +291,25 @@ def build_module(W):
 
 
 def bounds(tier):
-    return {'callers': 2 if tier == 'quick' else 3, 'caches': ['JsonCache', 'DataFrameCache'],
+    return {'callers': '2' if tier == 'quick' else '2 (both caches, all ordered pairs) and 3 (JSON cache, all multisets with at least one writer and one get)',
+            'caches': ['JsonCache', 'DataFrameCache'],
             'pre_states': ['absent', 'intact', 'empty', 'torn'], 'operations': ['get', 'get_or_compute', 'get_or_compute(force)'],
             'reader_views_of_a_file_being_written': 3}
 
 
 def cases(tier):
     out = []
-    n = 2 if tier == 'quick' else 3
     import itertools
     for ctype in ('json', 'pd'):
         for pre in ('absent', 'intact', 'empty', 'torn'):
-            for ops in itertools.product(range(3), repeat=n):
-                if tier == 'quick' or ops == tuple(sorted(ops)):
-                    out.append((ctype, pre, ops))
+            for ops in itertools.product(range(3), repeat=2):
+                out.append((ctype, pre, ops))
+    if tier == 'thorough':
+        # three callers: the JSON cache, every multiset of operations with at least one writer
+        for pre in ('absent', 'intact', 'torn'):
+            for ops in itertools.combinations_with_replacement(range(3), 3):
+                if any(ops) and 0 in ops:        # (three writers without a reader: > 10^6 schedules, not explored)
+                    out.append(('json', pre, ops))
     return out
 
 
